@@ -43,12 +43,16 @@ Definition copied (dst src r : bytes) (doff soff len : N) : Prop :=
 Lemma choose_min_spec a b : choose_min a b = N.min a b.
 Proof. unfold choose_min. destruct (N.ltb_spec a b); lia. Qed.
 
+Lemma w64_small x : x < two64 -> w64 x = x.
+Proof. intros H. unfold w64. apply N.mod_small. exact H. Qed.
+
 Lemma copy_loop_spec fuel : forall dst src so do_ last,
     last - so <= N.of_nat fuel -> so <= last ->
     last <= 8 * blen src -> do_ + (last - so) <= 8 * blen dst ->
+    8 * blen src < two64 -> 8 * blen dst < two64 ->
     exists r, copy_loop fuel dst src so do_ last = Some r /\ copied dst src r do_ so (last - so).
 Proof.
-  induction fuel as [|f IH]; intros dst src so do_ last Hf Hso Hsrc Hdst.
+  induction fuel as [|f IH]; intros dst src so do_ last Hf Hso Hsrc Hdst H64s H64d.
   - exists dst. cbn [copy_loop]. replace (last <=? so) with true by (symmetry; apply N.leb_le; lia).
     split; [reflexivity|]. split; [reflexivity|]. split; [auto|]. intros p.
     destruct (N.leb_spec do_ p); destruct (N.ltb_spec p (do_ + (last - so))); cbn [andb]; try reflexivity. lia.
@@ -62,6 +66,7 @@ Proof.
       assert (Hdm : dm < 8) by (subst dm; apply N.mod_lt; discriminate).
       assert (Hmx : mx < 8 /\ sm <= mx /\ dm <= mx) by (subst mx; destruct (N.ltb_spec dm sm); lia).
       assert (Hsize : 1 <= size /\ size <= 8 - mx /\ size <= last - so) by (subst size; lia).
+      rewrite (w64_small (so + size)), (w64_small (do_ + size)) by lia.
       rewrite (rd_some src (so / 8)) by (unfold blen in *; lia).
       rewrite (rd_some dst (do_ / 8)) by (unfold blen in *; lia).
       rewrite wr_some by (unfold blen in *; lia).
@@ -72,6 +77,8 @@ Proof.
       * lia.
       * exact Hsrc.
       * subst dst'. unfold blen. rewrite upd_length. unfold blen in Hdst. lia.
+      * exact H64s.
+      * subst dst'. unfold blen. rewrite upd_length. exact H64d.
       * exists r. split; [exact Hr|]. split.
         { rewrite Hlen. subst dst'. apply upd_length. }
         split.
@@ -157,9 +164,10 @@ Qed.
 
 Theorem copy_bits_exact dst doff len src soff :
   doff + len <= 8 * blen dst -> soff + len <= 8 * blen src ->
+  8 * blen dst < two64 -> 8 * blen src < two64 ->
   exists r, copy_bits dst doff len src soff = Some r /\ copied dst src r doff soff len.
 Proof.
-  intros Hd Hs. unfold copy_bits.
+  intros Hd Hs H64d H64s. unfold copy_bits. rewrite (w64_small (soff + len)) by lia.
   destruct (N.eqb_spec (soff mod 8) 0) as [Hsa|Hsa]; cbn [andb].
   2:{ destruct (copy_loop_spec (N.to_nat len) dst src soff doff (soff + len)) as (r & Hr & Hc); try lia.
       exists r. split; [exact Hr|]. replace (soff + len - soff) with len in Hc by lia. exact Hc. }
@@ -218,19 +226,27 @@ Lemma copy_bits_zero dst doff src soff : copy_bits dst doff 0 src soff = Some ds
 Proof.
   unfold copy_bits. destruct ((soff mod 8 =? 0) && (doff mod 8 =? 0)).
   - reflexivity.
-  - cbn [N.to_nat copy_loop]. rewrite N.add_0_r. rewrite N.leb_refl. reflexivity.
+  - cbn [N.to_nat copy_loop]. rewrite N.add_0_r.
+    replace (w64 soff <=? soff) with true; [reflexivity|].
+    symmetry. apply N.leb_le. unfold w64. apply N.mod_le. discriminate.
 Qed.
 
 Theorem copy_bits_exact' dst doff len src soff :
-  len = 0 \/ (doff + len <= 8 * blen dst /\ soff + len <= 8 * blen src) ->
+  len = 0 \/ (doff + len <= 8 * blen dst /\ soff + len <= 8 * blen src /\ 8 * blen dst < two64 /\ 8 * blen src < two64) ->
   exists r, copy_bits dst doff len src soff = Some r /\ copied dst src r doff soff len.
 Proof.
-  intros [->|[Hd Hs]]; [|apply copy_bits_exact; assumption].
+  intros [->|(Hd & Hs & H1 & H2)]; [|apply copy_bits_exact; assumption].
   exists dst. split; [apply copy_bits_zero|]. split; [reflexivity|]. split; [auto|].
   intros p. destruct (N.leb_spec doff p); destruct (N.ltb_spec p (doff + 0)); cbn [andb]; try reflexivity; lia.
 Qed.
 
-(* ---- little-endian byte images ---- *)
+(* ---- nunavutSaturateBufferFragmentBitLength ---- *)
+Lemma saturate_fragment_spec size off len :
+  size * 8 < two64 ->
+  saturate_fragment size off len = N.min len (size * 8 - N.min (size * 8) off).
+Proof. intros H. unfold saturate_fragment. rewrite w64_small by exact H. rewrite !choose_min_spec. reflexivity. Qed.
+
+(* ---- byte images ---- *)
 Lemma bit_cons x t k : bit (x :: t) k = if k <? 8 then N.testbit x k else bit t (k - 8).
 Proof.
   unfold bit, byte_at. destruct (N.ltb_spec k 8).
@@ -239,15 +255,30 @@ Proof.
     cbn [nth]. f_equal. lia.
 Qed.
 
+Lemma bit_nil k : bit [] k = false.
+Proof. unfold bit, byte_at. destruct (N.to_nat (k / 8)); cbn; apply N.bits_0. Qed.
+
 Lemma of_le_bytes_bit b : bytes_ok b -> forall k, N.testbit (of_le_bytes b) k = bit b k.
 Proof.
   induction b as [|x t IH]; intros Hok k.
-  - cbn. rewrite N.bits_0. unfold bit, byte_at. destruct (N.to_nat (k / 8)); cbn; rewrite N.bits_0; reflexivity.
+  - cbn. rewrite N.bits_0, bit_nil. reflexivity.
   - inversion Hok; subst. cbn [of_le_bytes fold_right]. fold (of_le_bytes t).
     rewrite N.lor_spec, tb_shiftl, bit_cons, IH by assumption.
     destruct (N.ltb_spec k 8); destruct (N.leb_spec 8 k); try lia; cbn [andb].
     + apply orb_false_r.
     + rewrite (tb_byte x k) by assumption. reflexivity.
+Qed.
+
+Lemma or_shifts_bit b : bytes_ok b -> forall k j,
+  N.testbit (or_shifts k b) j = (8 * k <=? j) && bit b (j - 8 * k).
+Proof.
+  induction b as [|x t IH]; intros Hok k j.
+  - cbn [or_shifts]. rewrite N.bits_0, bit_nil. symmetry. apply andb_false_r.
+  - inversion Hok; subst. cbn [or_shifts]. rewrite N.lor_spec, tb_shiftl, IH, bit_cons by assumption.
+    destruct (N.leb_spec (8 * k) j); destruct (N.leb_spec (8 * (k + 1)) j); destruct (N.ltb_spec (j - 8 * k) 8);
+      try lia; cbn [andb orb].
+    + rewrite (tb_byte x (j - 8 * k)) by (assumption || lia). cbn [orb]. f_equal. lia.
+    + apply orb_false_r.
 Qed.
 
 Lemma byte_at_le_bytes n v i :
@@ -271,99 +302,522 @@ Qed.
 Lemma le_bytes_length n v : length (le_bytes n v) = n.
 Proof. unfold le_bytes. rewrite map_length, seq_length. reflexivity. Qed.
 
-(* ---- nunavutSetUxx ---- *)
-Theorem set_uxx_exact buf off value len :
-  (blen buf * 8 < off + len -> set_uxx buf off value len = Some (inr TooSmall)) /\
-  (off + len <= blen buf * 8 ->
-   exists r, set_uxx buf off value len = Some (inl r) /\ length r = length buf /\
-             (bytes_ok buf -> bytes_ok r) /\
-             forall p, bit r p = if (off <=? p) && (p <? off + N.min len 64)
-                                 then N.testbit (value mod 2 ^ 64) (p - off) else bit buf p).
+Lemma le_bytes_ok n v : bytes_ok (le_bytes n v).
 Proof.
-  unfold set_uxx. split; intros H.
+  apply bytes_ok_byte_at. intros i. rewrite byte_at_le_bytes.
+  destruct (i <? N.of_nat n); [apply land_255_lt|reflexivity].
+Qed.
+
+Lemma tmp_any_le v : tmp_any v = le_bytes 8 v.
+Proof. reflexivity. Qed.
+
+Lemma le_bytes_S n v : le_bytes (S n) v = N.land v 255 :: le_bytes n (N.shiftr v 8).
+Proof.
+  unfold le_bytes. cbn [seq map]. change (8 * N.of_nat 0) with 0. rewrite N.shiftr_0_r.
+  apply f_equal. rewrite <- seq_shift, map_map. apply map_ext. intros k.
+  rewrite N.shiftr_shiftr. apply f_equal2; [|reflexivity]. apply f_equal. lia.
+Qed.
+
+(* the memory image on a little-endian host is the explicit array: this is why the
+   target_endianness=little rendering and the any/big rendering agree there *)
+Lemma mem_le_le n : forall v, mem_le n v = le_bytes n v.
+Proof.
+  induction n as [|n IH]; intros v; [reflexivity|].
+  cbn [mem_le]. rewrite le_bytes_S, IH. f_equal.
+  - change 255 with (N.ones 8). rewrite N.land_ones. reflexivity.
+  - f_equal. rewrite N.shiftr_div_pow2. reflexivity.
+Qed.
+
+(* ---- nunavutSetUxx / SetIxx / SetBit ---- *)
+Definition written (buf r : bytes) (off n v : N) : Prop :=
+  length r = length buf /\ (bytes_ok buf -> bytes_ok r) /\
+  forall p, bit r p = if (off <=? p) && (p <? off + n) then N.testbit v (p - off) else bit buf p.
+
+Theorem set_uxx_exact little buf size off value len :
+  size <= blen buf -> 8 * blen buf < two64 -> off + len < two64 ->
+  (size * 8 < off + len -> set_uxx little buf size off value len = Some (inr TooSmall)) /\
+  (off + len <= size * 8 ->
+   exists r, set_uxx little buf size off value len = Some (inl r) /\ written buf r off (N.min len 64) (w64 value)).
+Proof.
+  intros Hsz H64 Hno. unfold set_uxx. rewrite (w64_small (size * 8)), (w64_small (off + len)) by lia.
+  split; intros H.
   - apply N.ltb_lt in H. rewrite H. reflexivity.
-  - replace (blen buf * 8 <? off + len) with false by (symmetry; apply N.ltb_ge; lia).
+  - replace (size * 8 <? off + len) with false by (symmetry; apply N.ltb_ge; lia).
     rewrite choose_min_spec.
-    destruct (copy_bits_exact buf off (N.min len 64) (le_bytes 8 (value mod 2 ^ 64)) 0) as (r & Hr & Hl & Hok & Hb).
+    assert (X : (if little then mem_le 8 (w64 value) else tmp_any (w64 value)) = le_bytes 8 (w64 value))
+      by (destruct little; [apply mem_le_le|apply tmp_any_le]).
+    rewrite X. clear X.
+    destruct (copy_bits_exact buf off (N.min len 64) (le_bytes 8 (w64 value)) 0) as (r & Hr & Hl & Hok & Hb).
     + lia.
     + unfold blen. rewrite le_bytes_length. lia.
+    + exact H64.
+    + unfold blen. rewrite le_bytes_length. unfold two64. lia.
     + exists r. rewrite Hr. split; [reflexivity|]. split; [exact Hl|]. split.
-      * intros Hb0. apply Hok; [exact Hb0|]. apply bytes_ok_byte_at. intros i. rewrite byte_at_le_bytes.
-        destruct (i <? N.of_nat 8); [apply land_255_lt|reflexivity].
+      * intros Hb0. apply Hok; [exact Hb0|apply le_bytes_ok].
       * intros p. rewrite Hb. destruct ((off <=? p) && (p <? off + N.min len 64)) eqn:E; [|reflexivity].
         rewrite bit_le_bytes. apply andb_prop in E as [E1 E2]. apply N.leb_le in E1. apply N.ltb_lt in E2.
         replace (0 + (p - off) <? 8 * N.of_nat 8) with true by (symmetry; apply N.ltb_lt; lia).
         cbn [andb]. rewrite N.add_0_l. reflexivity.
 Qed.
 
-(* ---- nunavutGetU8/16/32/64: zero extension beyond the buffer, clamping of len_bits ---- *)
-Lemma saturate_fragment_spec size off len :
-  saturate_fragment size off len = N.min len (size * 8 - N.min (size * 8) off).
-Proof. unfold saturate_fragment. rewrite !choose_min_spec. reflexivity. Qed.
-
-Theorem get_uxx_spec w buf off len :
-  w mod 8 = 0 -> bytes_ok buf ->
-  exists v, get_uxx w buf off len = Some v /\
-            forall k, N.testbit v k = (k <? N.min len w) && bit buf (off + k).
+(* two's complement: the low 64 bits written by nunavutSetIxx are those of the signed value *)
+Lemma set_ixx_value (z : Z) k : k < 64 ->
+  N.testbit (w64 (Z.to_N (z mod Z.of_N two64))) k = Z.testbit z (Z.of_N k).
 Proof.
-  intros Hw Hok. unfold get_uxx. rewrite saturate_fragment_spec, choose_min_spec.
-  set (bits := N.min (N.min len w) (blen buf * 8 - N.min (blen buf * 8) off)).
-  destruct (copy_bits_exact' (repeat 0 (N.to_nat (w / 8))) 0 bits buf off) as (r & Hr & Hl & Hokr & Hb).
-  { destruct (N.eq_dec bits 0) as [Hz|Hz]; [left; exact Hz|right].
-    subst bits. unfold blen in *. rewrite repeat_length. lia. }
-  exists (of_le_bytes r). rewrite Hr. split; [reflexivity|]. intros k.
-  rewrite of_le_bytes_bit by (apply Hokr; [apply bytes_ok_repeat0|exact Hok]).
-  rewrite Hb. cbn [N.leb]. replace (0 <=? k) with true by (symmetry; apply N.leb_le; lia). cbn [andb].
-  rewrite N.add_0_l, N.sub_0_r.
-  destruct (N.ltb_spec k bits).
-  - replace (k <? N.min len w) with true by (symmetry; apply N.ltb_lt; subst bits; lia). reflexivity.
-  - assert (Hz : bit (repeat 0 (N.to_nat (w / 8))) k = false).
-    { unfold bit, byte_at. destruct (Nat.lt_ge_cases (N.to_nat (k / 8)) (N.to_nat (w / 8))).
-      - rewrite nth_repeat. apply N.bits_0.
-      - rewrite nth_overflow by (rewrite repeat_length; lia). apply N.bits_0. }
-    rewrite Hz. destruct (N.ltb_spec k (N.min len w)); [|reflexivity]. cbn [andb].
-    symmetry. apply bit_beyond. subst bits. unfold blen in *. lia.
+  intros Hk. assert (Hm : (0 <= z mod Z.of_N two64 < Z.of_N two64)%Z) by (apply Z.mod_pos_bound; reflexivity).
+  rewrite w64_small by lia.
+  rewrite <- Z.testbit_of_N. rewrite Z2N.id by lia.
+  change (Z.of_N two64) with (2 ^ 64)%Z. apply Z.mod_pow2_bits_low. lia.
 Qed.
 
-Lemma neg_lnot x : (- Z.of_N x - 1)%Z = Z.lnot (Z.of_N x).
-Proof. unfold Z.lnot. lia. Qed.
-
-(* ---- nunavutGetI8/16/32/64: two's complement sign extension, stated on the bits of the result ---- *)
-Theorem get_ixx_sign_ext w buf off len :
-  w mod 8 = 0 -> 0 < w -> bytes_ok buf ->
-  exists u z, get_uxx w buf off (N.min len w) = Some u /\ get_ixx w buf off len = Some z /\
-    let sat := N.min len w in
-    let neg := (0 <? sat) && N.testbit u (sat - 1) in
-    forall k, Z.testbit z (Z.of_N k) = if k <? sat then N.testbit u k else neg.
+Theorem set_bit_exact buf size off value :
+  size <= blen buf -> 8 * blen buf < two64 ->
+  (size * 8 <= off -> set_bit buf size off value = Some (inr TooSmall)) /\
+  (off < size * 8 ->
+   exists r, set_bit buf size off value = Some (inl r) /\ written buf r off 1 (if value then 1 else 0)).
 Proof.
-  intros Hw Hw0 Hok. unfold get_ixx. rewrite choose_min_spec.
-  destruct (get_uxx_spec w buf off (N.min len w) Hw Hok) as (u & Hu & Hbits).
-  exists u. rewrite Hu. eexists. split; [reflexivity|]. split; [reflexivity|].
-  set (sat := N.min len w). cbn zeta.
+  intros Hsz H64. unfold set_bit. rewrite (w64_small (size * 8)) by lia. split; intros H.
+  - apply N.leb_le in H. rewrite H. reflexivity.
+  - replace (size * 8 <=? off) with false by (symmetry; apply N.leb_gt; lia).
+    destruct (copy_bits_exact buf off 1 [if value then 1 else 0] 0) as (r & Hr & Hl & Hok & Hb).
+    + lia.
+    + cbn. lia.
+    + exact H64.
+    + cbn. unfold two64. lia.
+    + exists r. rewrite Hr. split; [reflexivity|]. split; [exact Hl|]. split.
+      * intros Hb0. apply Hok; [exact Hb0|]. constructor; [destruct value; reflexivity|constructor].
+      * intros p. rewrite Hb. destruct ((off <=? p) && (p <? off + 1)) eqn:E; [|reflexivity].
+        apply andb_prop in E as [E1 E2]. apply N.leb_le in E1. apply N.ltb_lt in E2.
+        replace (p - off) with 0 by lia. rewrite N.add_0_l, bit_cons. reflexivity.
+Qed.
+
+(* ---- nunavutGetBits: zero extension, right zero padding of the last output byte ---- *)
+Lemma byte_at_memset0 b from n i : from + n <= blen b ->
+  byte_at (firstn (N.to_nat from) b ++ repeat 0 (N.to_nat n) ++ skipn (N.to_nat (from + n)) b) i =
+  if (from <=? i) && (i <? from + n) then 0 else byte_at b i.
+Proof.
+  unfold blen, byte_at. intros H.
+  assert (L1 : length (firstn (N.to_nat from) b) = N.to_nat from) by (rewrite firstn_length; lia).
+  destruct (N.leb_spec from i); cbn [andb].
+  - rewrite app_nth2 by lia. rewrite L1. destruct (N.ltb_spec i (from + n)).
+    + rewrite app_nth1 by (rewrite repeat_length; lia). apply nth_repeat.
+    + rewrite app_nth2 by (rewrite repeat_length; lia). rewrite repeat_length, nth_skipn_add. f_equal. lia.
+  - rewrite app_nth1 by lia. apply nth_firstn_lt. lia.
+Qed.
+
+Theorem get_bits_zero_ext output buf size off len :
+  size <= blen buf -> 8 * blen buf < two64 -> off < two64 -> len + 7 < two64 ->
+  (len + 7) / 8 <= blen output -> 8 * blen output < two64 ->
+  exists r, get_bits output buf size off len = Some r /\ length r = length output /\
+    (bytes_ok output -> bytes_ok buf -> bytes_ok r) /\
+    forall p, bit r p = if p <? 8 * ((len + 7) / 8)
+                        then (p <? len) && (off + p <? 8 * size) && bit buf (off + p)
+                        else bit output p.
+Proof.
+  intros Hsz H64 Hoff Hlen Hout H64o. unfold get_bits.
+  rewrite saturate_fragment_spec by lia. rewrite (w64_small (len + 7)) by exact Hlen.
+  set (sat := N.min len (size * 8 - N.min (size * 8) off)).
+  assert (Hsat : sat <= len) by (subst sat; lia).
+  unfold memset0.
+  replace (sat / 8 + ((len + 7) / 8 - sat / 8) <=? blen output) with true by (symmetry; apply N.leb_le; lia).
+  set (o := firstn _ output ++ _).
+  assert (Lo : length o = length output).
+  { subst o. unfold blen in *. rewrite !app_length, firstn_length, repeat_length, skipn_length. lia. }
+  assert (Bo : forall i, byte_at o i = if (sat / 8 <=? i) && (i <? (len + 7) / 8) then 0 else byte_at output i).
+  { intros i. subst o. rewrite byte_at_memset0 by lia.
+    replace (sat / 8 + ((len + 7) / 8 - sat / 8)) with ((len + 7) / 8) by lia. reflexivity. }
+  destruct (copy_bits_exact' o 0 sat buf off) as (r & Hr & Hl & Hok & Hb).
+  { destruct (N.eq_dec sat 0) as [Hz|Hz]; [left; exact Hz|right].
+    unfold blen in *. rewrite Lo. subst sat. lia. }
+  exists r. split; [exact Hr|]. split; [rewrite Hl; exact Lo|]. split.
+  { intros Ho Hbf. apply Hok; [|exact Hbf]. apply bytes_ok_byte_at. intros i. rewrite Bo.
+    destruct ((sat / 8 <=? i) && (i <? (len + 7) / 8)); [reflexivity|apply bytes_ok_byte_at; exact Ho]. }
+  intros p. rewrite Hb. replace (0 <=? p) with true by (symmetry; apply N.leb_le; lia). cbn [andb].
+  rewrite N.add_0_l, N.sub_0_r.
+  destruct (N.ltb_spec p sat).
+  - replace (p <? 8 * ((len + 7) / 8)) with true by (symmetry; apply N.ltb_lt; lia).
+    replace (p <? len) with true by (symmetry; apply N.ltb_lt; lia).
+    replace (off + p <? 8 * size) with true by (symmetry; apply N.ltb_lt; subst sat; lia). reflexivity.
+  - unfold bit at 1. rewrite Bo.
+    destruct (N.ltb_spec p (8 * ((len + 7) / 8))).
+    + replace ((sat / 8 <=? p / 8) && (p / 8 <? (len + 7) / 8)) with true
+        by (symmetry; apply andb_true_intro; split; [apply N.leb_le|apply N.ltb_lt]; lia).
+      rewrite N.bits_0. symmetry.
+      destruct (N.ltb_spec p len); cbn [andb]; [|reflexivity].
+      replace (off + p <? 8 * size) with false by (symmetry; apply N.ltb_ge; subst sat; lia). reflexivity.
+    + replace ((sat / 8 <=? p / 8) && (p / 8 <? (len + 7) / 8)) with false
+        by (symmetry; apply andb_false_intro2; apply N.ltb_ge; lia).
+      reflexivity.
+Qed.
+
+(* ---- nunavutGetU8/16/32/64: zero extension beyond the buffer, clamping of len_bits ---- *)
+Lemma bit_repeat0 n k : bit (repeat 0 n) k = false.
+Proof.
+  unfold bit, byte_at. destruct (Nat.lt_ge_cases (N.to_nat (k / 8)) n).
+  - rewrite nth_repeat. apply N.bits_0.
+  - rewrite nth_overflow by (rewrite repeat_length; lia). apply N.bits_0.
+Qed.
+
+Theorem get_uxx_spec little w buf size off len :
+  w mod 8 = 0 -> w <= 64 -> bytes_ok buf -> size <= blen buf -> 8 * blen buf < two64 -> off < two64 ->
+  exists v, get_uxx little w buf size off len = Some v /\
+            forall k, N.testbit v k = (k <? N.min len w) && (off + k <? 8 * size) && bit buf (off + k).
+Proof.
+  intros Hw Hw64 Hok Hsz H64 Hoff. unfold get_uxx. rewrite saturate_fragment_spec by lia. rewrite choose_min_spec.
+  set (bits := N.min (N.min len w) (size * 8 - N.min (size * 8) off)).
+  destruct (copy_bits_exact' (repeat 0 (N.to_nat (w / 8))) 0 bits buf off) as (r & Hr & Hl & Hokr & Hb).
+  { destruct (N.eq_dec bits 0) as [Hz|Hz]; [left; exact Hz|right].
+    subst bits. unfold blen in *. rewrite repeat_length. unfold two64 in *. lia. }
+  assert (Hrok : bytes_ok r) by (apply Hokr; [apply bytes_ok_repeat0|exact Hok]).
+  assert (Hbits : forall k, bit r k = (k <? N.min len w) && (off + k <? 8 * size) && bit buf (off + k)).
+  { intros k. rewrite Hb. replace (0 <=? k) with true by (symmetry; apply N.leb_le; lia). cbn [andb].
+    rewrite N.add_0_l, N.sub_0_r, bit_repeat0.
+    destruct (N.ltb_spec k bits).
+    - replace (k <? N.min len w) with true by (symmetry; apply N.ltb_lt; subst bits; lia).
+      replace (off + k <? 8 * size) with true by (symmetry; apply N.ltb_lt; subst bits; lia). reflexivity.
+    - destruct (N.ltb_spec k (N.min len w)); [|reflexivity]. cbn [andb].
+      replace (off + k <? 8 * size) with false by (symmetry; apply N.ltb_ge; subst bits; lia). reflexivity. }
+  eexists. rewrite Hr. split; [reflexivity|]. intros k.
+  destruct (little || (w =? 8)).
+  - rewrite of_le_bytes_bit by exact Hrok. apply Hbits.
+  - rewrite or_shifts_bit by exact Hrok. cbn [N.mul]. replace (8 * 0 <=? k) with true by (symmetry; apply N.leb_le; lia).
+    cbn [andb]. replace (k - 8 * 0) with k by lia. apply Hbits.
+Qed.
+
+(* the two renderings compute the same function *)
+Theorem endianness_variants_equal_get w buf size off len :
+  w mod 8 = 0 -> w <= 64 -> bytes_ok buf -> size <= blen buf -> 8 * blen buf < two64 -> off < two64 ->
+  get_uxx true w buf size off len = get_uxx false w buf size off len.
+Proof.
+  intros Hw Hw64 Hok Hsz H64 Hoff.
+  destruct (get_uxx_spec true w buf size off len Hw Hw64 Hok Hsz H64 Hoff) as (v1 & -> & H1).
+  destruct (get_uxx_spec false w buf size off len Hw Hw64 Hok Hsz H64 Hoff) as (v2 & -> & H2).
+  f_equal. apply N.bits_inj. intros k. rewrite H1, H2. reflexivity.
+Qed.
+
+Theorem endianness_variants_equal_set buf size off value len :
+  set_uxx true buf size off value len = set_uxx false buf size off value len.
+Proof. unfold set_uxx. rewrite mem_le_le. reflexivity. Qed.
+
+Theorem get_bit_spec little buf size off :
+  bytes_ok buf -> size <= blen buf -> 8 * blen buf < two64 -> off < two64 ->
+  get_bit little buf size off = Some ((off <? 8 * size) && bit buf off).
+Proof.
+  intros Hok Hsz H64 Hoff. unfold get_bit.
+  destruct (get_uxx_spec little 8 buf size off 1 eq_refl ltac:(lia) Hok Hsz H64 Hoff) as (v & -> & Hv). f_equal.
+  assert (Hv0 : N.testbit v 0 = (off <? 8 * size) && bit buf off).
+  { rewrite Hv. rewrite N.add_0_r. reflexivity. }
+  rewrite <- Hv0. assert (Hhi : forall k, 0 < k -> N.testbit v k = false).
+  { intros k Hk. rewrite Hv. replace (k <? N.min 1 8) with false by (symmetry; apply N.ltb_ge; lia). reflexivity. }
+  destruct (N.testbit v 0) eqn:E0.
+  - apply N.eqb_eq. apply N.bits_inj. intros k. destruct (N.eq_dec k 0) as [->|Hk]; [exact E0|].
+    rewrite Hhi by lia. symmetry. apply (tb_small 1 1); [reflexivity|lia].
+  - apply N.eqb_neq. intros ->. discriminate.
+Qed.
+
+(* ---- nunavutGetI8/16/32/64: two's complement sign extension ---- *)
+Lemma cast_u_small w x : x < 2 ^ w -> cast_u w x = x.
+Proof. intros H. unfold cast_u. apply N.mod_small. exact H. Qed.
+
+Lemma cast_s_id w z : 0 < w -> (- 2 ^ (Z.of_N w - 1) <= z < 2 ^ (Z.of_N w - 1))%Z -> cast_s w z = z.
+Proof.
+  intros Hw Hz. unfold cast_s.
+  set (H := (2 ^ (Z.of_N w - 1))%Z) in *.
+  assert (HW : (2 ^ Z.of_N w = 2 * H)%Z).
+  { subst H. rewrite <- Z.pow_succ_r by lia. f_equal. lia. }
+  rewrite HW.
+  assert (0 < H)%Z by (subst H; apply Z.pow_pos_nonneg; lia).
+  destruct (Z.leb_spec 0 z).
+  - rewrite Z.mod_small by lia. destruct (Z.ltb_spec z H); lia.
+  - rewrite <- (Z.mod_unique_pos z (2 * H) (-1) (z + 2 * H)) by lia.
+    destruct (Z.ltb_spec (z + 2 * H) H); lia.
+Qed.
+
+Lemma high_bits_lt u s : (forall k, s <= k -> N.testbit u k = false) -> u < 2 ^ s.
+Proof.
+  intros H. destruct (N.eq_dec u 0) as [->|Hz].
+  - apply N.neq_0_lt_0. apply N.pow_nonzero. discriminate.
+  - apply N.log2_lt_pow2; [lia|]. destruct (N.lt_ge_cases (N.log2 u) s) as [Hl|Hl]; [exact Hl|].
+    specialize (H _ Hl). rewrite N.bit_log2 in H by exact Hz. discriminate.
+Qed.
+
+Lemma top_bit u s : 0 < s -> u < 2 ^ s -> N.testbit u (s - 1) = (2 ^ (s - 1) <=? u).
+Proof.
+  intros Hs Hu. set (P := 2 ^ (s - 1)).
+  assert (HP : 2 ^ s = 2 * P).
+  { subst P. rewrite <- N.pow_succ_r'. f_equal. lia. }
+  assert (HP0 : 0 < P) by (subst P; apply N.neq_0_lt_0, N.pow_nonzero; discriminate).
+  destruct (N.leb_spec P u) as [Hle|Hlt].
+  - assert (E : 1 = u / P) by (apply (N.div_unique u P 1 (u - P)); lia).
+    pose proof (N.testbit_spec' u (s - 1)) as T. fold P in T. rewrite <- E in T.
+    destruct (N.testbit u (s - 1)); [reflexivity|discriminate].
+  - apply (tb_small u (s - 1)); [exact Hlt|lia].
+Qed.
+
+Lemma land_pow2_test u n : negb (N.land u (2 ^ n) =? 0) = N.testbit u n.
+Proof.
+  destruct (N.testbit u n) eqn:Eb.
+  - apply negb_true_iff. apply N.eqb_neq. intros Hc.
+    assert (X : N.testbit (N.land u (2 ^ n)) n = false) by (rewrite Hc; apply N.bits_0).
+    rewrite N.land_spec, Eb, N.pow2_bits_true in X. discriminate.
+  - apply negb_false_iff. apply N.eqb_eq. apply N.bits_inj. intros k. rewrite N.land_spec, N.bits_0.
+    destruct (N.eq_dec k n) as [->|Hne]; [rewrite Eb; reflexivity|].
+    rewrite N.pow2_bits_false by congruence. apply andb_false_r.
+Qed.
+
+Definition sign_extend (sat u : N) : Z :=
+  if (0 <? sat) && N.testbit u (sat - 1) then (Z.of_N u - 2 ^ Z.of_N sat)%Z else Z.of_N u.
+
+Theorem sext_expr_spec w sat u :
+  (w = 8 \/ w = 16 \/ w = 32 \/ w = 64) -> sat <= w -> u < 2 ^ sat ->
+  sext_expr w sat u = Some (sign_extend sat u).
+Proof.
+  intros Hw Hsat Hult.
+  assert (Hw' : 8 <= w /\ w <= 64).
+  { destruct Hw as [-> | [-> | [-> | ->]]]; lia. }
+  destruct Hw' as (Hwlo & Hwhi).
   assert (Hhigh : forall k, sat <= k -> N.testbit u k = false).
-  { intros k Hk. rewrite Hbits. replace (k <? N.min (N.min len w) w) with false; [reflexivity|].
-    symmetry. apply N.ltb_ge. subst sat. lia. }
-  assert (Hneg : negb (N.land u (N.shiftl 1 (sat - 1)) =? 0) = N.testbit u (sat - 1)).
-  { destruct (N.testbit u (sat - 1)) eqn:Eb.
-    - apply negb_true_iff. apply N.eqb_neq. intros Hc.
-      assert (N.testbit (N.land u (N.shiftl 1 (sat - 1))) (sat - 1) = false) by (rewrite Hc; apply N.bits_0).
-      rewrite N.land_spec, Eb, tb_shiftl, N.leb_refl, N.sub_diag in H. discriminate.
-    - apply negb_false_iff. apply N.eqb_eq. apply N.bits_inj. intros k. rewrite N.land_spec, tb_shiftl, N.bits_0.
-      destruct (N.eq_dec k (sat - 1)) as [->|Hne]; [rewrite Eb; reflexivity|].
-      destruct (N.leb_spec (sat - 1) k); cbn [andb]; [|apply andb_false_r].
-      replace (N.testbit 1 (k - (sat - 1))) with false; [apply andb_false_r|].
-      symmetry. apply (tb_small 1 1); [reflexivity|lia]. }
-  rewrite Hneg. set (neg := (0 <? sat) && N.testbit u (sat - 1)).
-  intros k. destruct neg eqn:En.
-  - (* negative: -(~val') - 1 = Z.lnot (~val') *)
-    rewrite neg_lnot.
-    rewrite Z.lnot_spec by lia. rewrite Z.testbit_of_N. rewrite andb_true_r.
-    destruct (N.ltb_spec sat w); tb.
-    + destruct (N.ltb_spec k sat); destruct (N.ltb_spec k w); try lia;
-        try (rewrite (Hhigh k) by lia); destruct (N.testbit u k); reflexivity.
-    + assert (sat = w) by (subst sat; lia).
-      destruct (N.ltb_spec k sat); destruct (N.ltb_spec k w); try lia;
-        try (rewrite (Hhigh k) by lia); destruct (N.testbit u k); reflexivity.
-  - rewrite andb_false_r. rewrite Z.testbit_of_N.
-    destruct (N.ltb_spec k sat); [reflexivity|]. apply Hhigh. lia.
+  { intros k Hk. apply (tb_small u sat k); assumption. }
+  unfold sext_expr, sign_extend.
+  set (pw := if w <=? 16 then 32 else 64).
+  set (iw := if w <=? 32 then 32 else 64).
+  assert (Hpw : w <= pw /\ pw <= 64) by (subst pw; destruct (N.leb_spec w 16); lia).
+  assert (Hiw : w <= iw /\ 32 <= iw) by (subst iw; destruct (N.leb_spec w 32); lia).
+  set (HZ := (2 ^ (Z.of_N w - 1))%Z).
+  assert (HZ0 : (0 < HZ)%Z) by (subst HZ; apply Z.pow_pos_nonneg; lia).
+  destruct (N.ltb_spec 0 sat) as [Hs0|Hs0]; cbn [andb].
+  2:{ assert (sat = 0) by lia. assert (u = 0) by (replace sat with 0 in Hult by lia; change (2 ^ 0) with 1 in Hult; lia).
+      subst u. rewrite andb_false_r. rewrite cast_s_id; [reflexivity|lia|]. fold HZ. cbn. lia. }
+  rewrite N.shiftl_1_l.
+  rewrite (cast_u_small 64 (2 ^ (sat - 1))) by (apply N.pow_lt_mono_r; lia).
+  rewrite land_pow2_test.
+  set (P := 2 ^ (sat - 1)).
+  assert (HP : 2 ^ sat = 2 * P).
+  { subst P. rewrite <- N.pow_succ_r'. f_equal. lia. }
+  set (PZ := (2 ^ (Z.of_N sat - 1))%Z).
+  assert (HPZ : Z.of_N P = PZ).
+  { subst P PZ. rewrite N2Z.inj_pow. f_equal. lia. }
+  assert (HPZ2 : (2 ^ Z.of_N sat = 2 * PZ)%Z).
+  { subst PZ. rewrite <- Z.pow_succ_r by lia. f_equal. lia. }
+  assert (HPH : (PZ <= HZ)%Z) by (subst PZ HZ; apply Z.pow_le_mono_r; lia).
+  pose proof (top_bit u sat Hs0 Hult) as Htop. fold P in Htop.
+  destruct (N.testbit u (sat - 1)) eqn:Eb.
+  - symmetry in Htop. apply N.leb_le in Htop.
+    set (val' := if (sat <? w) && true then _ else u).
+    assert (Hc : lnot_u w val' = N.ones sat - u).
+    { rewrite <- N.lnot_sub_low by (apply N.log2_lt_pow2; lia). unfold N.lnot.
+      apply N.bits_inj. intros k. subst val'. unfold lnot_u.
+      destruct (N.ltb_spec sat w) as [Hlt|Hge]; cbn [andb].
+      - rewrite N.shiftl_1_l. rewrite (cast_u_small pw (2 ^ sat)) by (apply N.pow_lt_mono_r; lia).
+        unfold lnot_u, cast_u. rewrite <- !N.land_ones. tb.
+        destruct (N.ltb_spec k sat); destruct (N.ltb_spec k w); destruct (N.ltb_spec k pw); try lia;
+          try (rewrite (Hhigh k) by lia); cbn [andb orb xorb negb];
+          rewrite ?andb_true_r, ?andb_false_r, ?orb_false_r, ?orb_true_r, ?xorb_false_r, ?xorb_true_r; reflexivity.
+      - assert (sat = w) by lia. unfold cast_u. rewrite <- !N.land_ones. tb.
+        destruct (N.ltb_spec k sat); destruct (N.ltb_spec k w); try lia;
+          try (rewrite (Hhigh k) by lia); cbn [andb orb xorb negb];
+          rewrite ?andb_true_r, ?andb_false_r, ?orb_false_r, ?xorb_false_r, ?xorb_true_r; reflexivity. }
+    rewrite Hc. rewrite <- pow2_minus1_ones.
+    set (c := 2 ^ sat - 1 - u).
+    assert (Hcz : Z.of_N c = (2 * PZ - 1 - Z.of_N u)%Z) by (subst c; lia).
+    assert (HuZ : (PZ <= Z.of_N u < 2 * PZ)%Z) by lia.
+    rewrite (cast_s_id w (Z.of_N c)) by (fold HZ; lia).
+    replace (Z.of_N c =? - 2 ^ (Z.of_N iw - 1))%Z with false.
+    2:{ symmetry. apply Z.eqb_neq. assert (0 < 2 ^ (Z.of_N iw - 1))%Z by (apply Z.pow_pos_nonneg; lia). lia. }
+    rewrite cast_s_id by (fold HZ; lia). f_equal. lia.
+  - symmetry in Htop. apply N.leb_gt in Htop. rewrite andb_false_r.
+    rewrite cast_s_id by (fold HZ; lia). reflexivity.
+Qed.
+
+Theorem get_ixx_sign_ext little w buf size off len :
+  (w = 8 \/ w = 16 \/ w = 32 \/ w = 64) ->
+  bytes_ok buf -> size <= blen buf -> 8 * blen buf < two64 -> off < two64 ->
+  exists u, get_uxx little w buf size off (N.min len w) = Some u /\ u < 2 ^ N.min len w /\
+            get_ixx little w buf size off len = Some (sign_extend (N.min len w) u).
+Proof.
+  intros Hw Hok Hsz H64 Hoff.
+  assert (Hw' : w mod 8 = 0 /\ 8 <= w /\ w <= 64).
+  { destruct Hw as [-> | [-> | [-> | ->]]]; (split; [reflexivity|lia]). }
+  destruct Hw' as (Hw8 & Hwlo & Hwhi).
+  destruct (get_uxx_spec little w buf size off (N.min len w) Hw8 Hwhi Hok Hsz H64 Hoff) as (u & Hu & Hbits).
+  set (sat := N.min len w) in *.
+  assert (Hsat : sat <= w) by (subst sat; lia).
+  assert (Hult : u < 2 ^ sat).
+  { apply high_bits_lt. intros k Hk. rewrite Hbits. replace (k <? N.min sat w) with false; [reflexivity|].
+    symmetry. apply N.ltb_ge. lia. }
+  exists u. split; [exact Hu|]. split; [exact Hult|].
+  unfold get_ixx. rewrite choose_min_spec. fold sat.
+  rewrite (cast_u_small 8 sat) by (change (2 ^ 8) with 256; lia). rewrite Hu.
+  apply sext_expr_spec; assumption.
+Qed.
+
+(* ================= statements with the preconditions as boolean guards (used by Properties/C14.v) ================= *)
+(* the allocation can be addressed in bits by a size_t *)
+Definition alloc_ok (b : bytes) : bool := 8 * blen b <? two64.
+Definition bytes_okb (b : bytes) : bool := forallb (fun x => x <? 256) b.
+(* "both buffers shall be large enough" of nunavutCopyBits *)
+Definition copy_pre (dst : bytes) (doff len : N) (src : bytes) (soff : N) : bool :=
+  (doff + len <=? 8 * blen dst) && (soff + len <=? 8 * blen src) && alloc_ok dst && alloc_ok src.
+(* buf points to at least buf_size_bytes bytes; off_bits is a size_t *)
+Definition buf_pre (buf : bytes) (size off : N) : bool :=
+  (size <=? blen buf) && alloc_ok buf && (off <? two64) && bytes_okb buf.
+
+Lemma bytes_okb_ok b : bytes_okb b = true -> bytes_ok b.
+Proof.
+  unfold bytes_okb, bytes_ok. rewrite forallb_forall, Forall_forall. intros H x Hx. apply N.ltb_lt. apply H. exact Hx.
+Qed.
+
+Lemma buf_pre_elim buf size off : buf_pre buf size off = true ->
+  size <= blen buf /\ 8 * blen buf < two64 /\ off < two64 /\ bytes_ok buf.
+Proof.
+  unfold buf_pre, alloc_ok. intros H. repeat (apply andb_prop in H; destruct H as [H ?]).
+  repeat split; try (apply N.leb_le; assumption); try (apply N.ltb_lt; assumption). apply bytes_okb_ok. assumption.
+Qed.
+
+Theorem copy_bits_exact_b dst doff len src soff :
+  copy_pre dst doff len src soff = true ->
+  exists r, copy_bits dst doff len src soff = Some r /\ length r = length dst /\
+    (bytes_ok dst -> bytes_ok src -> bytes_ok r) /\
+    forall p, bit r p = if (doff <=? p) && (p <? doff + len) then bit src (soff + (p - doff)) else bit dst p.
+Proof.
+  unfold copy_pre, alloc_ok. intros H. repeat (apply andb_prop in H; destruct H as [H ?]).
+  apply copy_bits_exact; try (apply N.leb_le; assumption); apply N.ltb_lt; assumption.
+Qed.
+
+Theorem copy_bits_zero_length dst doff src soff : copy_bits dst doff 0 src soff = Some dst.
+Proof. apply copy_bits_zero. Qed.
+
+Theorem saturate_fragment_spec_b size off len :
+  (size * 8 <? two64) = true ->
+  saturate_fragment size off len = N.min len (size * 8 - N.min (size * 8) off) /\
+  (off + saturate_fragment size off len <= N.max off (size * 8)).
+Proof.
+  intros H. apply N.ltb_lt in H. rewrite saturate_fragment_spec by exact H. split; [reflexivity|lia].
+Qed.
+
+Theorem get_bits_zero_ext_b output buf size off len :
+  buf_pre buf size off = true -> (len + 7 <? two64) = true ->
+  ((len + 7) / 8 <=? blen output) && alloc_ok output = true ->
+  exists r, get_bits output buf size off len = Some r /\ length r = length output /\
+    forall p, bit r p = if p <? 8 * ((len + 7) / 8)
+                        then (p <? len) && (off + p <? 8 * size) && bit buf (off + p)
+                        else bit output p.
+Proof.
+  intros Hb Hl Ho. apply buf_pre_elim in Hb as (H1 & H2 & H3 & H4). apply N.ltb_lt in Hl.
+  apply andb_prop in Ho as [Ho1 Ho2]. apply N.leb_le in Ho1. unfold alloc_ok in Ho2. apply N.ltb_lt in Ho2.
+  destruct (get_bits_zero_ext output buf size off len H1 H2 H3 Hl Ho1 Ho2) as (r & Hr & Hlen & _ & Hbits).
+  exists r. auto.
+Qed.
+
+Theorem set_uxx_exact_b little buf size off value len :
+  buf_pre buf size off = true -> (off + len <? two64) = true ->
+  if size * 8 <? off + len
+  then set_uxx little buf size off value len = Some (inr TooSmall)
+  else exists r, set_uxx little buf size off value len = Some (inl r) /\ length r = length buf /\
+         forall p, bit r p = if (off <=? p) && (p <? off + N.min len 64)
+                             then N.testbit (value mod 2 ^ 64) (p - off) else bit buf p.
+Proof.
+  intros Hb Hl. apply buf_pre_elim in Hb as (H1 & H2 & H3 & H4). apply N.ltb_lt in Hl.
+  destruct (set_uxx_exact little buf size off value len H1 H2 Hl) as [Ha Hb].
+  destruct (N.ltb_spec (size * 8) (off + len)); [apply Ha; assumption|].
+  destruct (Hb H) as (r & Hr & Hlen & _ & Hbits). exists r. auto.
+Qed.
+
+Theorem set_ixx_exact_b little buf size off (value : Z) len :
+  buf_pre buf size off = true -> (off + len <? two64) = true ->
+  if size * 8 <? off + len
+  then set_ixx little buf size off value len = Some (inr TooSmall)
+  else exists r, set_ixx little buf size off value len = Some (inl r) /\ length r = length buf /\
+         forall p, bit r p = if (off <=? p) && (p <? off + N.min len 64)
+                             then Z.testbit value (Z.of_N (p - off)) else bit buf p.
+Proof.
+  intros Hb Hl. unfold set_ixx.
+  pose proof (set_uxx_exact_b little buf size off (Z.to_N (value mod Z.of_N two64)) len Hb Hl) as X.
+  destruct (size * 8 <? off + len); [exact X|].
+  destruct X as (r & Hr & Hlen & Hbits). exists r. split; [exact Hr|]. split; [exact Hlen|].
+  intros p. rewrite Hbits. destruct ((off <=? p) && (p <? off + N.min len 64)) eqn:E; [|reflexivity].
+  apply andb_prop in E as [E1 E2]. apply N.leb_le in E1. apply N.ltb_lt in E2.
+  apply set_ixx_value. lia.
+Qed.
+
+Theorem set_bit_exact_b buf size off value :
+  buf_pre buf size off = true ->
+  if size * 8 <=? off
+  then set_bit buf size off value = Some (inr TooSmall)
+  else exists r, set_bit buf size off value = Some (inl r) /\ length r = length buf /\
+         forall p, bit r p = if p =? off then value else bit buf p.
+Proof.
+  intros Hb. apply buf_pre_elim in Hb as (H1 & H2 & H3 & H4).
+  destruct (set_bit_exact buf size off value H1 H2) as [Ha Hb].
+  destruct (N.leb_spec (size * 8) off); [apply Ha; assumption|].
+  destruct (Hb H) as (r & Hr & Hlen & _ & Hbits). exists r. split; [exact Hr|]. split; [exact Hlen|].
+  intros p. rewrite Hbits. destruct (N.eqb_spec p off) as [->|Hne].
+  - replace ((off <=? off) && (off <? off + 1)) with true
+      by (symmetry; apply andb_true_intro; split; [apply N.leb_le|apply N.ltb_lt]; lia).
+    rewrite N.sub_diag. destruct value; reflexivity.
+  - replace ((off <=? p) && (p <? off + 1)) with false; [reflexivity|].
+    symmetry. destruct (N.leb_spec off p); cbn [andb]; [apply N.ltb_ge; lia|reflexivity].
+Qed.
+
+Theorem get_uxx_spec_b little w buf size off len :
+  (w =? 8) || (w =? 16) || (w =? 32) || (w =? 64) = true -> buf_pre buf size off = true ->
+  exists v, get_uxx little w buf size off len = Some v /\ v < 2 ^ N.min len w /\
+            forall k, N.testbit v k = (k <? N.min len w) && (off + k <? 8 * size) && bit buf (off + k).
+Proof.
+  intros Hw Hb. apply buf_pre_elim in Hb as (H1 & H2 & H3 & H4).
+  assert (Hw' : w mod 8 = 0 /\ w <= 64).
+  { repeat (apply orb_prop in Hw; destruct Hw as [Hw|Hw]); apply N.eqb_eq in Hw; subst w; (split; [reflexivity|lia]). }
+  destruct Hw' as [Hw8 Hw64].
+  destruct (get_uxx_spec little w buf size off len Hw8 Hw64 H4 H1 H2 H3) as (v & Hv & Hbits).
+  exists v. split; [exact Hv|]. split; [|exact Hbits].
+  apply high_bits_lt. intros k Hk. rewrite Hbits.
+  replace (k <? N.min len w) with false by (symmetry; apply N.ltb_ge; lia). reflexivity.
+Qed.
+
+Theorem get_ixx_sign_ext_b little w buf size off len :
+  (w =? 8) || (w =? 16) || (w =? 32) || (w =? 64) = true -> buf_pre buf size off = true ->
+  exists u, get_uxx little w buf size off (N.min len w) = Some u /\ u < 2 ^ N.min len w /\
+            get_ixx little w buf size off len = Some (sign_extend (N.min len w) u).
+Proof.
+  intros Hw Hb. apply buf_pre_elim in Hb as (H1 & H2 & H3 & H4).
+  apply get_ixx_sign_ext; try assumption.
+  repeat (apply orb_prop in Hw; destruct Hw as [Hw|Hw]); apply N.eqb_eq in Hw; auto.
+Qed.
+
+Theorem get_bit_spec_b little buf size off :
+  buf_pre buf size off = true ->
+  get_bit little buf size off = Some ((off <? 8 * size) && bit buf off).
+Proof. intros Hb. apply buf_pre_elim in Hb as (H1 & H2 & H3 & H4). apply get_bit_spec; assumption. Qed.
+
+Theorem endianness_variants_equal_b w buf size off len value :
+  (w =? 8) || (w =? 16) || (w =? 32) || (w =? 64) = true -> buf_pre buf size off = true ->
+  get_uxx true w buf size off len = get_uxx false w buf size off len /\
+  get_ixx true w buf size off len = get_ixx false w buf size off len /\
+  set_uxx true buf size off value len = set_uxx false buf size off value len.
+Proof.
+  intros Hw Hb. pose proof Hb as Hb'. apply buf_pre_elim in Hb as (H1 & H2 & H3 & H4).
+  assert (Hw' : w mod 8 = 0 /\ w <= 64).
+  { repeat (apply orb_prop in Hw; destruct Hw as [Hw|Hw]); apply N.eqb_eq in Hw; subst w; (split; [reflexivity|lia]). }
+  destruct Hw' as [Hw8 Hw64].
+  split; [apply endianness_variants_equal_get; assumption|]. split; [|apply endianness_variants_equal_set].
+  unfold get_ixx. rewrite (endianness_variants_equal_get w buf size off _ Hw8 Hw64 H4 H1 H2 H3). reflexivity.
+Qed.
+
+(* sign_extend is the two's complement reading: congruent to u modulo 2^sat and inside the signed range *)
+Theorem sign_extend_range sat u : 0 < sat -> u < 2 ^ sat ->
+  (- 2 ^ (Z.of_N sat - 1) <= sign_extend sat u < 2 ^ (Z.of_N sat - 1))%Z /\
+  (sign_extend sat u mod 2 ^ Z.of_N sat = Z.of_N u)%Z.
+Proof.
+  intros Hs Hu. unfold sign_extend.
+  replace (0 <? sat) with true by (symmetry; apply N.ltb_lt; exact Hs). cbn [andb].
+  rewrite (top_bit u sat Hs Hu).
+  set (P := 2 ^ (sat - 1)).
+  assert (HP : 2 ^ sat = 2 * P) by (subst P; rewrite <- N.pow_succ_r'; f_equal; lia).
+  set (PZ := (2 ^ (Z.of_N sat - 1))%Z).
+  assert (HPZ : Z.of_N P = PZ) by (subst P PZ; rewrite N2Z.inj_pow; f_equal; lia).
+  assert (HPZ2 : (2 ^ Z.of_N sat = 2 * PZ)%Z) by (subst PZ; rewrite <- Z.pow_succ_r by lia; f_equal; lia).
+  rewrite HPZ2.
+  destruct (N.leb_spec P u).
+  - split; [lia|]. symmetry. apply (Z.mod_unique_pos _ (2 * PZ) (-1) (Z.of_N u)); lia.
+  - split; [lia|]. apply Z.mod_small. lia.
 Qed.
